@@ -31,6 +31,9 @@ ANCHORS = [
 MIN_NONTRIVIAL = {'quick': 300, 'thorough': 5000}
 MIN_STATS = {'process_calls_checked': 5000}
 ASSUMPTIONS = ['order of lifecycle callbacks inside one operation not judged',
+               'a processor ADDED during a frame may or may not run in it; an '
+               'on_remove that adds a processor of the type being replaced is '
+               'not generated',
                'p.world after removal is not judged']
 
 PRIOS = [-3, -1, 0, 0, 1, 1, 2, 3]
@@ -155,6 +158,7 @@ def run_case(case):
         order[:] = [x for x in order if x[2] is not got]
         removed_ever.add(got.uid)
         frame['changed'].add(got.uid)
+        frame.setdefault('removed_at', {})[got.uid] = len(log)
         frame['life'].append(expect_life('remove', got))
 
     def model_add(q, prio):
@@ -197,6 +201,7 @@ def run_case(case):
     for at, op in enumerate(case['ops']):
         frame['changed'] = set()
         frame['life'] = []
+        frame['removed_at'] = {}
         frame.pop('bad', None)
         del log[:]
         name = op[0]
@@ -276,6 +281,20 @@ def run_case(case):
                     if n > 1:
                         fail(at, 'process-calls', f'processor {uid} called '
                              f'{n} times in one frame', '<=1', n)
+                        break
+                if res.divs:
+                    break
+                # a processor removed or replaced during the frame is never
+                # called again, not even later in that same frame
+                for uid, pos in frame['removed_at'].items():
+                    res.stats['inframe_removals_checked'] += 1
+                    late = [e for e in log[pos:]
+                            if e[0] == 'proc' and e[1] == uid]
+                    if late:
+                        fail(at, 'called-after-removal', f'processor {uid} '
+                             'was removed (or replaced) by another processor '
+                             'during the frame and was still called '
+                             'afterwards', 'never called again', late[:2])
                         break
                 if res.divs:
                     break
